@@ -375,9 +375,9 @@ def decNamed (env : Env) : Nat → String → DProg Val
   | fuel+1, id =>
     match env.find id with
     | none => .panic "unknown type"
-    | some (.record d) => readRecord d.steps (declDecs (decTy (fuel + 1) (decNamed env fuel)) d)
+    | some (.record d) => readRecord d.steps (declDecs (decTy fuel (decNamed env fuel)) d)
     | some (.enum name sorted ctors) =>
-      readEnum (decTy (fuel + 1) (decNamed env fuel)) name sorted ctors
+      readEnum (decTy fuel (decNamed env fuel)) name sorted ctors
 
 def dec (env : Env) (fuel : Nat) (ty : Ty) : DProg Val := decTy fuel (decNamed env fuel) ty
 
